@@ -403,7 +403,13 @@ def search(factory_mod, factory_name, params, opts, pool=None, max_depth=None,
     seen = {key0: []}
     frontier = [([], info0)]
     depth = 0
+    import os
+    import time
+    deadline = float(os.environ.get("VERIF_DEADLINE") or "inf")
     while frontier:
+        if time.time() > deadline:
+            res["capped"] = f"wall-clock budget (frontier {len(frontier)} states not expanded)"
+            break
         if max_depth is not None and depth >= max_depth:
             res["capped"] = f"depth {max_depth} (frontier {len(frontier)} states not expanded)"
             break
@@ -413,6 +419,9 @@ def search(factory_mod, factory_name, params, opts, pool=None, max_depth=None,
             outs = map(expand, frontier)
         nxt = []
         for o in outs:
+            if time.time() > deadline:
+                res["capped"] = "wall-clock budget (level not completed)"
+                break
             res["transitions"] += o["transitions"]
             res["replays"] += o["replays"]
             res["maxk"] = max(res["maxk"], o["maxk"])
